@@ -357,9 +357,14 @@ Proof.
   intro Hx. unfold at_alt_end. rewrite space0_bar. pose proof (space0_rest x Hx) as H. destruct (space0 x) as [|c r]; [reflexivity|].
   apply barfree_cons in H as [Hc _]. cbn [app lit]. now rewrite (N.eqb_sym 124 c), Hc.
 Qed.
+Lemma at_empty_alt_bar t y : barfree t -> at_empty_alt (t ++ BAR y) = at_empty_alt t.
+Proof.
+  intro H. destruct t as [|c r]; [reflexivity|]. apply barfree_cons in H as [Hc _]. unfold at_empty_alt. cbn [app lit]. now rewrite (N.eqb_sym 124 c), Hc.
+Qed.
 Lemma range_p_bar x y : barfree x -> range_p (x ++ BAR y) = ext (BAR y) (range_p x).
 Proof.
   intro Hx. unfold range_p. rewrite space0_bar. pose proof (space0_rest x Hx) as H0. set (t := space0 x) in *.
+  rewrite (at_empty_alt_bar t y H0). destruct (at_empty_alt t); [reflexivity|].
   destruct hyphen_p_stable as [A B]. rewrite (A t y H0). specialize (B t H0). destruct (hyphen_p t) as [[b r]|]; cbn [ext rest_ok] in *.
   - rewrite at_alt_end_bar by auto. destruct (at_alt_end r); [reflexivity|]. now apply simples_p_bar.
   - now apply simples_p_bar.
@@ -367,6 +372,7 @@ Qed.
 Lemma range_p_rest x : barfree x -> rest_ok (range_p x).
 Proof.
   intro Hx. unfold range_p. pose proof (space0_rest x Hx) as H0. set (t := space0 x) in *.
+  destruct (at_empty_alt t); [exact H0|].
   destruct hyphen_p_stable as [_ B]. specialize (B t H0). destruct (hyphen_p t) as [[b r]|]; cbn [rest_ok] in *.
   - destruct (at_alt_end r); [exact B|]. now apply simples_p_rest.
   - now apply simples_p_rest.
@@ -404,6 +410,9 @@ Proof.
   { intros bs0 r0 E Hb. unfold simples_p in E. pose proof (simple_at_term t) as H1. destruct (simple t) as [b s1]. cbn in H1.
     destruct (simples_tail (length s1) s1) as [[l r']|] eqn:E2; [|discriminate]. injection E as _ <-.
     destruct (simples_tail_end _ _ _ _ H1 E2) as [A B]. now apply at_term_barfree. }
+  destruct (at_empty_alt t) eqn:Ee.
+  { injection H as _ <-. pose proof (space0_rest x Hx) as Hs. fold t in Hs. destruct t as [|c u]; [reflexivity|].
+    apply barfree_cons in Hs as [Hc _]. unfold at_empty_alt in Ee. cbn [lit] in Ee. rewrite (N.eqb_sym 124 c), Hc in Ee. discriminate. }
   destruct (hyphen_p t) as [[b r0]|] eqn:Eh.
   - destruct (at_alt_end r0) eqn:Ea.
     + injection H as _ ->. unfold at_alt_end in Ea. pose proof (space0_rest r Hr) as Hs. destruct (space0 r) as [|c u]; auto.
